@@ -39,7 +39,7 @@ def run(ctx):
     exe = L.build_harness(ctx, HDIR)
     if not exe:
         return
-    n = 300 if ctx.tier == "quick" else 4000
+    n = 600 if ctx.tier == "quick" else 4000
     total_cases = 0
     seeds = [ctx.seed] if ctx.tier == "quick" else [str(int(ctx.seed) * 1000 + k) for k in range(4)]
     allcases = []
